@@ -59,10 +59,14 @@ type Gen struct {
 	deferSt   []*ssa.Defer
 	stSorts   map[string]*Sort
 
-	notes   map[string]bool
-	assumed map[string]bool
-	errs    []string
-	modelVars []ModelVar
+	stepVals        map[string][2]T
+	errSt           State
+	frameStructural map[string]bool
+	errQuantDone    bool
+	notes           map[string]bool
+	assumed         map[string]bool
+	errs            []string
+	modelVars       []ModelVar
 }
 
 type ModelVar struct {
@@ -113,6 +117,8 @@ func (g *Gen) reset() {
 	g.assumed = map[string]bool{}
 	g.deferSt = nil
 	g.modelVars = nil
+	g.stepVals = nil
+	g.frameStructural = map[string]bool{}
 }
 
 func (g *Gen) note(format string, a ...interface{}) {
